@@ -568,6 +568,11 @@ class Lib:
             return '((%s)shim_opaque_ptr())' % self.tr.ctype_t(t)
         if name == 'find_if' and len(args) == 3:
             return self.find_if(P, n, args)
+        if name in ('max', 'min') and not args:
+            # std::numeric_limits<T>::max() / min() of the integer types
+            lim = {'int': ('2147483647', '(-2147483647 - 1)'), 'long': ('9223372036854775807L', '(-9223372036854775807L - 1)'),
+                   'unsigned long': ('18446744073709551615UL', '0UL'), 'unsigned int': ('4294967295U', '0U')}.get(n.get('type', {}).get('qualType'))
+            if lim: return lim[0] if name == 'max' else lim[1]
         if name == 'round' and len(args) == 1 and n.get('type', {}).get('qualType') == 'float':
             return 'roundf(%s)' % P.ex(args[0])      # std::round(float) is the float overload
         if name in ('memcpy', 'memset', 'memcmp', 'strlen', 'abs', 'fabs', 'fabsf', 'floor', 'floorf', 'ceil', 'sqrt', 'round', 'roundf'):
